@@ -30,6 +30,11 @@ namespace nmtools::index
                 at(result,i) = 1;
             }
 
+            // leading (batch) axes keep their extent
+            for (nm_index_t i=0; i<(nm_index_t)src_dim-(nm_index_t)n_planes-1; i++) {
+                at(result,i) = at(src_shape,i);
+            }
+
             auto src_channel_axis = -(nm_index_t)n_planes - 1;
             auto dst_group_axis   = -(nm_index_t)n_planes - 2;
 
